@@ -240,3 +240,28 @@ example : validate .enumMessage (({ hdr := {}, variants := [{ ident := [65], att
     = .reject := validate_rejects_uncollectable _ _ _ _ _ rfl rfl (by decide)
 
 end Strum
+
+namespace Strum
+
+/-! ### the two models of `EnumDiscriminants`' header agree -/
+
+/-- the visibility class C09's value-level model (`genDiscriminants`) works with, read off the collected `vis(..)` item -/
+def discVisOf (p : DiscProps) : DiscVis :=
+  match p.vis with
+  | none => .inherit
+  | some v => if v == kwPub then .pub else .restricted
+
+/-- **the header model (token level, `discHeader`) and the value-level model (`genDiscriminants`, StrumModel/Repr.lean) give the
+    generated enum the same name and decide `IntoDiscriminant` alike**, whatever the source enum's own visibility, repr
+    attributes, doc lines, derives and pass-through attributes are -/
+theorem header_agrees_with_gen (d : EnumDef) (ev : Bytes) (reprs : List Bytes) (p : DiscProps) :
+    (discHeader d.name ev reprs p).name = (genDiscriminants d p.name (discVisOf p)).name ∧
+    (discHeader d.name ev reprs p).intoDisc = (genDiscriminants d p.name (discVisOf p)).hasIntoDiscriminant := by
+  constructor
+  · cases h : p.name <;> simp [discHeader, genDiscriminants, h, sufDiscriminants]
+  · unfold discHeader genDiscriminants discVisOf
+    cases h : p.vis with
+    | none => rfl
+    | some v => by_cases hv : (v == kwPub) = true <;> simp [hv]
+
+end Strum
